@@ -35,6 +35,7 @@ def gen_cases(ctx, pid, n_random, variants):
     ops += srvlib.writefail_cases()
     ops += srvlib.openfail_cases()
     ops += srvlib.getrevfail_cases()
+    ops += srvlib.counterfault_cases()
     ops += srvlib.matrix_cases(rng, variants)
     for _ in range(n_random):
         ops.append(srvlib.Gen(rng).history(rng.randint(6, 18)))
